@@ -115,6 +115,12 @@ func runC03(c *Ctx) {
 	info := r.FI.Pkg.TypesInfo
 	c.storeClasses(r)
 	c.boundIsHelperResult(r, "C03.1-bound")
+	// the desired set the reconcile works on is the helper's: its walk over the delete slots (C01.3) decides
+	// which ordinals are wanted and which are condemned
+	c.skipWrap = true
+	c.helperChain()
+	c.boundComputation()
+	c.skipWrap = false
 
 	// C03.2 delete classes
 	c.Floor("C03.2-delete-sites", len(r.Deletes), 3)
